@@ -328,13 +328,17 @@ def _chunk_worker(args) -> dict:
             c["id"] = i
         impls = []
         broken = 0
+        t_impl = time.time()
         for c in cases:
+            t1 = time.time()
             im = _guarded_impl(suite, c)
             impls.append(im)
-            if im.get("timeout") or im.get("memory_error"):
+            if im.get("timeout") or im.get("memory_error") or time.time() - t1 > 30:
                 broken += 1
                 if broken >= 3:  # the tree under test hangs / explodes: no point in burning the whole budget
                     break
+            if time.time() - t_impl > 300:  # a chunk is sized for seconds; a tree that makes it take minutes is cut short
+                break
         cases = cases[: len(impls)]
         models = run_model(suite.name, [suite.model_case(c) for c in cases])
         for c, im, mo in zip(cases, impls, models):
@@ -400,7 +404,7 @@ def shrink_case(suite: Suite, case: dict, prop: str, want: str, sig: str, budget
     cur = case
     steps = 0
     improved = True
-    deadline = time.time() + 60
+    deadline = time.time() + 30
     while improved and steps < budget and time.time() < deadline:
         improved = False
         for cand in suite.shrink(cur):
